@@ -12,6 +12,13 @@ var c17OpenCount int
 
 // c17ReadFile stands for the file system in the symbolic run: it records which path is opened.
 func c17ReadFile(name string) ([]byte, error) {
+	// the directories of the modelled tree (/, /w, /w/r, /w/r/s, /w/q) cannot be read as files - as on the real file system
+	st := c17Norm("/w", name)
+	for _, d := range c17Dirs {
+		if len(d) == len(st) && c17Inside(d, st) {
+			return nil, c17IsDir{}
+		}
+	}
 	c17Opened = name
 	c17OpenCount++
 	return []byte("SENTINEL"), nil
@@ -61,6 +68,12 @@ func c17Inside(root, sub []string) bool {
 	}
 	return true
 }
+
+type c17IsDir struct{}
+
+func (c17IsDir) Error() string { return "is a directory" }
+
+var c17Dirs = [][]string{{}, {"w"}, {"w", "r"}, {"w", "r", "s"}, {"w", "q"}}
 
 var c17Roots = []string{"/w/r", "/w/r/", "r", "./r", ".", "r/s", "/w", "/w/r/../q", "/", "../w/r"}
 
